@@ -36,6 +36,9 @@ def main():
         {"ops": [["call", "bad"], ["set", "1"], ["call", "bad"], ["call", "good"], ["set", "0"], ["call", "bad"], ["call", "good"]]},
         {"decorate_disabled": True, "ops": [["call", "bad"], ["set", {"py": "True"}], ["call", "bad"], ["set", {"py": "False"}], ["call", "bad"]]},
         {"ops": [["set", "TRUE"], ["call", "bad"], ["set", "fAlSe"], ["call", "bad"], ["set", "True"], ["call", "good"]]},
+        # the switch is toggled on the main thread, the call is made from a thread started afterwards
+        {"ops": [["call", "bad", "thread"], ["set", "1"], ["call", "bad", "thread"], ["call", "bad"], ["set", "0"], ["call", "bad", "thread"], ["call", "good", "thread"]]},
+        {"decorate_disabled": True, "ops": [["set", "true"], ["call", "bad", "thread"], ["set", "false"], ["call", "bad", "thread"]]},
     ]
     for _ in range(40 if R.thorough else 6):
         ops = []
@@ -43,7 +46,7 @@ def main():
             if R.rng.random() < .45:
                 ops.append(["set", R.rng.choice(["0", "1", "true", "FALSE", {"py": "True"}, {"py": "False"}])])
             else:
-                ops.append(["call", R.rng.choice(["good", "bad", "bad"])])
+                ops.append(["call", R.rng.choice(["good", "bad", "bad"])] + (["thread"] if R.rng.random() < .3 else []))
         scheds.append({"decorate_disabled": R.rng.random() < .4, "ops": ops})
     env_values = ["0", "1", "true", "TRUE", "False", "yes", "", "2", "tRuE"]
     out = vf.impl("impl_config.py", {"values": allv, "schedules": scheds, "env_values": env_values}, timeout=900)
